@@ -260,21 +260,39 @@ def _brute_limit(ctx):
 
 
 # ---------------------------------------------------------------- the solver's answer as an adversarial parameter
+_ORIENT = {"square_transposed": False}
+
+
+def _solver_stub(n, m, asg, seen=None):
+    """stands for linear_sum_assignment: returns the given pairs whatever the matrix.  A rewrite may hand the
+    solver the transposed matrix (and swap the answer back): the orientation is read off the shape, for square
+    matrices off a probe made by `_solver_selftest`; the answer is then given for the transposed problem."""
+    def solver(cost, *a, **kw):
+        shp = tuple(np.shape(cost))
+        if seen is not None:
+            seen.append(cost)
+        if n != m:
+            transposed = shp == (m, n)
+            if not transposed and shp != (n, m):
+                raise RuntimeError(f"solver stub: unexpected matrix shape {shp}")
+        else:
+            if shp != (n, m):
+                raise RuntimeError(f"solver stub: unexpected matrix shape {shp}")
+            transposed = _ORIENT["square_transposed"]
+        pairs = sorted((c, r) for r, c in asg) if transposed else [(r, c) for r, c in asg]
+        return np.array([x for x, _ in pairs], dtype=int), np.array([y for _, y in pairs], dtype=int)
+    return solver
+
+
 def _impl_solver(inp):
     """the real match_geometries with compute_affinity replaced by a table lookup *and*
     linear_sum_assignment replaced by a given answer"""
     mat = [[_f(x) for x in row] for row in inp["matrix"]]
     src, tgt, ids_s, ids_t = _stub_geoms(inp["n"], inp["m"])
-    rows = np.array([r for r, _ in inp["assigned"]], dtype=int)
-    cols = np.array([c for _, c in inp["assigned"]], dtype=int)
 
     def aff(g1, g2, *a, **kw):
         return mat[ids_s[id(g1)]][ids_t[id(g2)]]
-
-    def solver(cost, *a, **kw):
-        if tuple(np.shape(cost)) != (inp["n"], inp["m"]):
-            raise RuntimeError("solver stub: unexpected matrix shape")
-        return rows.copy(), cols.copy()
+    solver = _solver_stub(inp["n"], inp["m"], inp["assigned"], inp.get("_seen"))
     with _patched(compute_affinity=aff, linear_sum_assignment=solver) as M:
         out = list(M.match_geometries(src, tgt))
     return {"val": _canon(out)}
@@ -580,6 +598,12 @@ class _NumpyProxy:
     empty = zeros
 
     @staticmethod
+    def array(obj, dtype=None, *a, **kw):
+        return np.array(obj, dtype=object)
+
+    asarray = array
+
+    @staticmethod
     def full(shape, fill_value=0, *a, **kw):
         out = np.empty(shape, dtype=object)
         out.fill(fill_value)
@@ -620,11 +644,13 @@ def _sym_thunk(n, m, asg):
         def aff(g1, g2, *a, **kw):
             return Sym.var(names[ids_s[id(g1)]][ids_t[id(g2)]])
 
-        def solver(cost, *a, **kw):
-            return np.array([r for r, _ in asg], dtype=int), np.array([c for _, c in asg], dtype=int)
+        solver = _solver_stub(n, m, asg)
 
-        def to_float(x=0.0, *a):
-            return x if isinstance(x, Sym) else builtins.float(x, *a)
+        class to_float(builtins.float):
+            """`float` inside the traced module: symbolic numbers pass through (as a dtype numpy reads it as object)"""
+
+            def __new__(cls, x=0.0, *a):
+                return x if isinstance(x, Sym) else builtins.float(x, *a)
         with _patched(compute_affinity=aff, linear_sum_assignment=solver) as M:
             had_np, old_np = hasattr(M, "np"), getattr(M, "np", None)
             had_numpy, old_numpy = hasattr(M, "numpy"), getattr(M, "numpy", None)
@@ -716,9 +742,19 @@ def _stub_selftest():
 
 
 def _solver_selftest():
-    probe = {"n": 2, "m": 2, "matrix": [["1/4", "1"], ["1/2", "1/4"]], "assigned": [[0, 0], [1, 1]]}
+    seen = []
+    probe = {"n": 2, "m": 2, "matrix": [["1/4", "1"], ["1/2", "1/4"]], "assigned": [[0, 0], [1, 1]], "_seen": seen}
+    _ORIENT["square_transposed"] = False
     out = _impl_solver(probe)["val"]
-    if out != [[0, 0, "1/4"], [1, 1, "1/4"]]:
+    if seen and abs(float(seen[0][0][1])) == 0.5 and abs(float(seen[0][1][0])) == 1.0:
+        # the code hands the solver the transposed matrix: answer the transposed problem from now on
+        _ORIENT["square_transposed"] = True
+        out = _impl_solver(dict(probe, assigned=[[0, 1], [1, 0]]))["val"]
+        want = [[0, 1, "1"], [1, 0, "1/2"]]
+    else:
+        out = _impl_solver(dict(probe, assigned=[[0, 1], [1, 0]]))["val"]
+        want = [[0, 1, "1"], [1, 0, "1/2"]]
+    if out != want:
         raise RuntimeError(f"stubs of compute_affinity / linear_sum_assignment are not effective (got {out})")
 
 
